@@ -1595,6 +1595,22 @@ Proof.
   - eexists. split; [vm_compute; left; reflexivity|]. vm_compute. reflexivity.
 Qed.
 
+(* (g) MANY MESSAGES AT ONCE.  reassembly_complete bounds bytes and fragments only (and message_seq <
+   65536): there is no bound on how many messages are under reassembly at the same time.  Non-vacuity
+   witness: ten 10-byte messages cut at MTU 4 arrive LAST MESSAGE FIRST (30 records, ten cache entries
+   while message 0 is still missing) - every message is delivered, in order, once. *)
+Definition mm_msgs : list hmsg :=
+  map (fun j => mkMsg 11 (N.of_nat j) (map (fun i => N.of_nat (10 * j + i)) (seq 0 10))) (seq 0 10).
+Definition mm_history : list record :=
+  flat_map (fun m => map (fun f => RHs 0 [f] 0) (split_msg 4 m)) (rev mm_msgs).
+
+Theorem many_messages_reverse_delivered :
+  length mm_history = 30%nat /\
+  map strip (snd (fst (run init mm_history))) = map hstrip mm_msgs /\
+  snd (fst (run init (removelast mm_history))) = [] /\
+  length (cache (fst (fst (run init (removelast mm_history))))) = 10%nat.
+Proof. vm_compute. repeat split; reflexivity. Qed.
+
 (* ------------------------------------------------------------------ list-level restatements *)
 
 Lemma firstn_succ_nth {A} (d : A) : forall l k, (k < length l)%nat -> firstn (S k) l = firstn k l ++ [nth k l d].
